@@ -66,6 +66,28 @@ type stdoutWriter struct{}
 func (stdoutWriter) Write(p []byte) (int, error) { fmt.Print(string(p)); return len(p), nil }
 
 func init() {
+	extraDumps["decres"] = func(w *World) {
+		for _, cn := range []string{"int", "long", "double", "date"} {
+			c := w.codecs()[cn]
+			if c == nil || c.Dec == nil {
+				continue
+			}
+			for t := 0; t < 256; t++ {
+				run := w.decTable(c.Dec).at(t)
+				if !run.OK {
+					continue
+				}
+				k := "-"
+				if run.Result != nil {
+					k = run.Result.key
+				}
+				if run.Origin != nil {
+					k += "  ORIGIN " + run.Origin.key
+				}
+				fmt.Printf("%s x%02x payload=%d  %s\n", cn, t, run.Payload, k)
+			}
+		}
+	}
 	extraDumps["writers"] = func(w *World) {
 		for _, n := range []string{"(*Encoder).writeList", "(*Encoder).writeMap", "(*Encoder).writeObject", "(*Encoder).writeRef"} {
 			fn := w.role(n)
